@@ -1014,7 +1014,23 @@ fn format_subexpression(
             output.push(')');
         }
         ast::Expression::Member(expr, name) => {
+            // The digits of an integer literal followed by a period would read back as the start of a float literal
+            let is_int_literal = matches!(
+                expr.node,
+                ast::Expression::Literal(
+                    ast::Literal::IntUntyped(_)
+                        | ast::Literal::IntUnsigned32(_)
+                        | ast::Literal::IntUnsigned64(_)
+                        | ast::Literal::IntSigned64(_)
+                )
+            );
+            if is_int_literal {
+                output.push('(');
+            }
             format_subexpression(expr, prec, OperatorSide::Left, output, context)?;
+            if is_int_literal {
+                output.push(')');
+            }
             output.push('.');
             format_scoped_identifier(name, output, context)?;
         }
